@@ -344,6 +344,7 @@ CHECKS["C08"] = {
     "technique": "bounded-exhaustive range grid + rapid request sequences against an RFC 7233 reference over real files",
     "nontrivial_floor": 500,
     "units": [
+        {"name": "cache-expiry", "run": "^TestC08CacheExpiry$", "kind": "plain", "shards": 8},
         {"name": "range-grid", "run": "^TestC08RangeGrid$", "kind": "plain", "shards": 8},
         {"name": "random", "run": "^TestC08Random$", "kind": "rapid", "checks": {"quick": 4000, "thorough": 100000}, "shards": {"quick": 4, "thorough": 16}},
     ],
